@@ -48,16 +48,16 @@ Print Assumptions C09_function_names_differ_only_by_documented_substitutions.
    templates), any two backends and both settings of option-more-parentheses, with the decision tables
    executed from the code on this run: the two backends write the same script, token for token (same
    identifiers, same values in the same order, same keywords, same parentheses), provided they write the
-   same script for the sub-queries.  The backends then differ only in how a token is spelled. *)
+   same script for the sub-queries it contains (pq).  The backends then differ only in how a token is spelled. *)
 Require Import SQV.Model.Value SQV.Model.Expr SQV.Model.Writer SQV.Model.RenderExpr SQV.Proofs.PortableProofs SQV.Proofs.PortableTablesProofs.
 Theorem C09_portable_expression_same_script :
-  forall (Q : Type) (rq1 rq2 : Q -> script), (forall q, rq1 q = rq2 q) ->
-  forall is_alpha more b1 b2 (e : Expr.expr Q) common, portable Q e = true ->
+  forall (Q : Type) (pq : Q -> bool) (rq1 rq2 : Q -> script), (forall q, pq q = true -> rq1 q = rq2 q) ->
+  forall is_alpha more b1 b2 (e : Expr.expr Q) common, portable Q pq e = true ->
   rexpr Q rq1 is_alpha b1 (tables_of more b1) common e = rexpr Q rq2 is_alpha b2 (tables_of more b2) common e.
 Proof.
-  intros Q rq1 rq2 Hrq is_alpha more b1 b2 e common Hp.
+  intros Q pq rq1 rq2 Hrq is_alpha more b1 b2 e common Hp.
   destruct (all_tables_agree more b1 b2) as [Ha Hf].
-  now apply portable_same_script.
+  now apply (portable_same_script Q pq).
 Qed.
 Print Assumptions C09_portable_expression_same_script.
 
@@ -66,10 +66,40 @@ Example C09_portable_inhabited :
   let col := fun n : N => @EColumn unit (CCol [n]) in
   let i := fun z : Z => @EValue unit (V TInt (Some (PInt z))) in
   let s := fun c : N => @EValue unit (V TString (Some (PStr [c]))) in
-  portable unit
+  portable unit (fun _ => true)
     (EBinary
        (EBinary (EBinary (EBinary (col 97%N) BAdd (i 1%Z)) BMul (col 98%N)) BBetween (EBinary (i 2%Z) BAnd (col 99%N)))
        BOr
        (ENot (EBinary (EFunc FCoalesce [(false, col 100%N); (false, s 120%N)]) BLike
                       (EBinary (s 121%N) BEscape (s 33%N))))) = true.
+Proof. reflexivity. Qed.
+
+(* Statement level, unbounded nesting (Proofs/PortableStmtProofs.v): every portable SELECT - no DISTINCTROW /
+   DISTINCT ON, index hints, TABLESAMPLE, set operation, NULLS FIRST/LAST, locking clause, WITH clause, VALUES
+   table or FULL OUTER JOIN (the clauses whose surface form differs by dialect: C08), every expression portable,
+   every sub-query in FROM / joins / expressions again a portable SELECT, nested at most n levels - is written
+   as the same script, token for token, by any two backends, for both settings of option-more-parentheses and
+   the decision tables executed from the code on this run. *)
+Require Import SQV.Model.Cond SQV.Model.Stmt SQV.Model.RenderStmt SQV.Proofs.PortableStmtProofs.
+Theorem C09_portable_query_same_script :
+  forall is_alpha more b1 b2 n q, portable_query n q = true ->
+  rquery is_alpha b1 (tables_of more b1) n q = rquery is_alpha b2 (tables_of more b2) n q.
+Proof.
+  intros is_alpha more b1 b2 n q Hq. destruct (all_tables_agree more b1 b2) as [Ha Hf].
+  now apply portable_query_same_script.
+Qed.
+Print Assumptions C09_portable_query_same_script.
+
+(* non-vacuity: SELECT a FROM (SELECT b FROM t) AS s WHERE a > 1 AND EXISTS (SELECT b FROM t) ORDER BY a ASC LIMIT 3 *)
+Example C09_portable_query_inhabited :
+  let col := fun n : N => @EColumn query (CCol [n]) in
+  let inner := Select None [SelExpr (col 98%N) None None] [TPlain (TRTable [116%N])] [] HEmpty [] HEmpty [] []
+                      None None None None None None [] in
+  let outer := Select None [SelExpr (col 97%N) None None] [TSubQuery inner [115%N]] []
+                 (HCond (Cond false false
+                    [MExpr (EBinary (col 97%N) BGreaterThan (EValue (V TInt (Some (PInt 1%Z)))));
+                     MExpr (ESubQuery (Some SqExists) (QSelect inner))]))
+                 [] HEmpty [] [OrderExpr (col 97%N) OAsc None] (Some (V TBigUnsigned (Some (PInt 3%Z)))) None None None
+                 None None [] in
+  portable_query 2 (QSelect outer) = true.
 Proof. reflexivity. Qed.
